@@ -61,6 +61,14 @@ def run(tier="quick"):
     n_s, nund_s, samples_s = run_cap(chk, prog, [g_ for g_ in fns if g_.name in STRICT_FUNCS], rule="B1", noreturn=NORETURN, strict=True,
                                      cap_factory=lambda p: ConfCap(p, noreturn=NORETURN), kinds=kinds_)
     n, nund, samples = n + n_s, nund + nund_s, samples + samples_s
+    # the two big drivers: the reader loop of spifconf_parse (every bound of the line buffer) and, for spifconf_parse_line, the
+    # NULL obligations only - a helper's "no such word" answer (NULL) must not reach a libc function that dereferences it; its
+    # bounds depend on the caller's line buffer, which the entry contract of a bare char pointer does not describe
+    big = [g_ for g_ in (prog.fn("spifconf_parse"),) if g_ is not None]
+    n_b, nund_b, _sb = run_cap(chk, prog, big, rule="B1", noreturn=NORETURN, cap_factory=lambda p: ConfCap(p, noreturn=NORETURN), kinds=kinds_)
+    big2 = [g_ for g_ in (prog.fn("spifconf_parse_line"),) if g_ is not None]
+    n_b2, nund_b2, _sb2 = run_cap(chk, prog, big2, rule="B1", noreturn=NORETURN, cap_factory=lambda p: ConfCap(p, noreturn=NORETURN), kinds={"null"})
+    n, nund = n + n_b + n_b2, nund + nund_b + nund_b2
     nsp = R.check_spawn(chk, prog, {"builtin_exec": None, "spifconf_parse_line": "preproc"})
     nex = R.check_exec_reachability(chk, prog, u)
     R.check_tempfile(chk, prog)
